@@ -10,6 +10,7 @@ import (
 	"sort"
 	"strconv"
 	"strings"
+	"unicode/utf8"
 
 	"golang.org/x/tools/go/ssa"
 )
@@ -286,10 +287,47 @@ func (sc *symCtx) sym(v ssa.Value, depth int) string {
 // a hand-written `for _, r := range s { if f(r) { return true } }` gets.
 func (sc *symCtx) runeAny(c *ssa.Call) (string, bool) {
 	ci := callOf(c)
+	if ci.static != nil && ci.static.String() == "strings.ContainsAny" && len(c.Call.Args) == 2 {
+		return sc.runeAnyOfChars(c.Call.Args[0], c.Call.Args[1], 0)
+	}
 	if ci.static == nil || ci.static.String() != "strings.ContainsFunc" || len(c.Call.Args) != 2 {
 		return "", false
 	}
 	return sc.runeAnyOf(c.Call.Args[0], c.Call.Args[1], 0)
+}
+
+// runeAnyOfChars: `strings.ContainsAny(s, chars)` with chars a constant of valid UTF-8 is the existential over
+// the runes of s of the set of runes of chars. (With invalid UTF-8 in chars the library matches U+FFFD as well;
+// such a constant is not converted. An invalid byte in s decodes to U+FFFD in a rune loop too, and U+FFFD in the
+// set is then matched by both.)
+func (sc *symCtx) runeAnyOfChars(str, chars ssa.Value, depth int) (string, bool) {
+	k, ok := cv(chars).(*ssa.Const)
+	if !ok || k.Value == nil || k.Value.Kind() != constant.String {
+		return "", false
+	}
+	set := constant.StringVal(k.Value)
+	if !utf8.ValidString(set) || strings.ContainsRune(set, utf8.RuneError) {
+		return "", false
+	}
+	in := map[int64]bool{}
+	var pts []int64
+	for _, r := range set {
+		if !in[int64(r)] {
+			in[int64(r)] = true
+			pts = append(pts, int64(r))
+		}
+	}
+	sort.Slice(pts, func(i, j int) bool { return pts[i] < pts[j] })
+	var ivs []string
+	for i := 0; i < len(pts); {
+		j := i
+		for j+1 < len(pts) && pts[j+1] == pts[j]+1 {
+			j++
+		}
+		ivs = append(ivs, fmt.Sprintf("[%d,%d]", pts[i], pts[j]))
+		i = j + 1
+	}
+	return "RUNES-ANY[runes of " + sc.sym(str, depth+1) + "]{" + strings.Join(ivs, ",") + "}", true
 }
 
 // sliceAny: `slices.ContainsFunc(s, f)` with f a closure or module function whose body is a single
@@ -1230,6 +1268,54 @@ func (P *Prog) predicateClass(l testLit, cl *ssa.Function) string {
 	return "string"
 }
 
+// peelSubjectWrapper: cl returns, on every path, either the constant false or the result of one call of a func
+// value that resolves (under env) to a one-parameter closure or function of the module; returns that function and
+// the name its parameter gets: the rendering of the argument it is called with.
+func (P *Prog) peelSubjectWrapper(cl *ssa.Function, env map[ssa.Value]ssa.Value, targs map[string]types.Type) (*ssa.Function, map[ssa.Value]string, bool) {
+	if len(naturalLoops(cl)) > 0 {
+		return nil, nil, false
+	}
+	saved := substEnv
+	if len(env) > 0 {
+		substEnv = env
+	}
+	defer func() { substEnv = saved }()
+	var call *ssa.Call
+	ok := true
+	eachInstr(cl, func(_ *ssa.BasicBlock, _ int, in ssa.Instruction) {
+		rt, isRt := in.(*ssa.Return)
+		if !isRt || len(rt.Results) != 1 {
+			return
+		}
+		v := cv(rt.Results[0])
+		if b, isB := constBool(v); isB && !b {
+			return
+		}
+		c, isC := v.(*ssa.Call)
+		if !isC || (call != nil && call != c) {
+			ok = false
+			return
+		}
+		call = c
+	})
+	if !ok || call == nil || len(call.Call.Args) != 1 {
+		return nil, nil, false
+	}
+	var inner *ssa.Function
+	switch f := cv(call.Call.Value).(type) {
+	case *ssa.MakeClosure:
+		inner, _ = f.Fn.(*ssa.Function)
+	case *ssa.Function:
+		inner = f
+	}
+	if inner == nil || inner.Blocks == nil || len(inner.Params) != 1 || !inModule(funcPkgPath(inner)) || inner.Synthetic != "" {
+		return nil, nil, false
+	}
+	sc := &symCtx{fn: cl, phis: map[*ssa.Phi]ssa.Value{}, targs: targs}
+	arg := sc.sym(call.Call.Args[0], 0)
+	return inner, map[ssa.Value]string{inner.Params[0]: arg}, true
+}
+
 // canonicalPredicate renders the closure's predicate.
 func (P *Prog) canonicalPredicate(cl *ssa.Function) (string, []string) {
 	return P.canonicalPredicateEnv(cl, nil)
@@ -1248,8 +1334,24 @@ func (P *Prog) canonicalPredicateEnvT(cl *ssa.Function, env map[ssa.Value]ssa.Va
 	} else {
 		sh = P.predicateShape3(cl, env, nil, targs)
 	}
+	// The predicate proper may be a closure handed to a factory that only unwraps the subject
+	// (`stringPredicate[T](func(s string) bool { for _, r := range s {...} })`): when the factory's closure
+	// does nothing but assert the subject's type and return pred(<subject>), the formula is pred's, with its
+	// parameter standing for that subject expression.
+	if len(sh.problems) > 0 {
+		if inner, names, ok := P.peelSubjectWrapper(cl, env, targs); ok {
+			cl = inner
+			sh = P.predicateShape3(inner, env, names, targs)
+		}
+	}
 	if len(sh.problems) > 0 {
 		return "", sh.problems
+	}
+	if sh.loop != nil && strings.HasPrefix(sh.domain, "runes of ") {
+		if flat, ok := allSpaceLoopAsTrim(sh); ok {
+			s, _ := flat.dnf()
+			return normaliseRegexGlobals(s), nil
+		}
 	}
 	if sh.loop != nil && strings.HasPrefix(sh.domain, "runes of ") {
 		// (under the factory's bindings: the rune test may be a closure handed to `containsRuneFunc(match)`)
@@ -1285,6 +1387,74 @@ func (P *Prog) canonicalPredicateEnvT(cl *ssa.Function, env map[ssa.Value]ssa.Va
 	}
 	s = normaliseRegexGlobals(s)
 	return s, nil
+}
+
+// allSpaceLoopAsTrim: a loop over the runes of s that returns false at the first rune that is not
+// unicode.IsSpace, and true after the loop, decides "every rune of s is white space", which is the documented
+// meaning of `strings.TrimSpace(s) == ""` (TrimSpace removes exactly the leading and trailing runes for which
+// unicode.IsSpace holds; nothing is left iff all are). The shape is rewritten to that atom.
+var notSpaceRE = regexp.MustCompile(`^!unicode\.IsSpace\(\w+\)$`)
+
+func allSpaceLoopAsTrim(sh predShape) (predShape, bool) {
+	subject := strings.TrimPrefix(sh.domain, "runes of ")
+	var out predShape
+	nIn, nAfter := 0, 0
+	for _, p := range sh.paths {
+		n := len(p.conds)
+		switch {
+		case p.inLoop:
+			if p.ret != "false" || n == 0 || !notSpaceRE.MatchString(p.conds[n-1]) {
+				return sh, false
+			}
+			for _, c := range p.conds[:n-1] {
+				if strings.Contains(c, "unicode.") {
+					return sh, false
+				}
+			}
+			nIn++
+			out.paths = append(out.paths, predPath{conds: append(append([]string{}, p.conds[:n-1]...), "(strings.TrimSpace("+subject+") != \"\")"), ret: "false"})
+		default:
+			for _, c := range p.conds {
+				if strings.Contains(c, "unicode.") {
+					return sh, false
+				}
+			}
+			q := p
+			// a return reached after the loop ran to its end is reached only when no rune left early
+			if P0 := pathRunsLoop(sh, p); P0 {
+				if p.ret != "true" {
+					return sh, false
+				}
+				nAfter++
+				q = predPath{conds: append(append([]string{}, p.conds...), "(strings.TrimSpace("+subject+") == \"\")"), ret: "true"}
+			}
+			out.paths = append(out.paths, q)
+		}
+	}
+	if nIn == 0 || nAfter == 0 {
+		return sh, false
+	}
+	return out, true
+}
+
+// pathRunsLoop: the (out-of-loop) path's conditions are exactly those of an in-loop path without its rune test,
+// i.e. it is the continuation after the loop rather than a branch that never entered it.
+func pathRunsLoop(sh predShape, p predPath) bool {
+	for _, q := range sh.paths {
+		if !q.inLoop || len(q.conds) != len(p.conds)+1 {
+			continue
+		}
+		same := true
+		for i := range p.conds {
+			if p.conds[i] != q.conds[i] {
+				same = false
+			}
+		}
+		if same {
+			return true
+		}
+	}
+	return false
 }
 
 // byteLoopAsRuneSet: an existential over the *bytes* of a string whose body only compares the byte with
